@@ -52,7 +52,12 @@ type Case struct {
 }
 
 func genWeird(t *rapid.T, label string, allowEmpty bool) string {
-	switch rapid.IntRange(0, 5).Draw(t, label+"K") {
+	switch rapid.IntRange(0, 6).Draw(t, label+"K") {
+	case 6:
+		// long values: nothing in the code bounds what a client may declare (the login name is a file name and is cut back by the caller)
+		unit := rapid.SampledFrom([]string{"a", "host-", "é", "日本", "x.y", "0123456789"}).Draw(t, label+"Unit")
+		n := rapid.SampledFrom([]int{61, 63, 64, 65, 100, 127, 128, 129, 255, 256, 257, 300, 1000, 4096, 5000}).Draw(t, label+"Len")
+		return strings.Repeat(unit, n/len(unit)+1)
 	case 0:
 		l := []string{`a"b`, `back\slash`, "<script>", "x y", "é", "日本", "user name", "{}", `","isHWKey":true,"x":"`, "null", "a,b", "tab\there",
 			// texts that look like JSON escapes themselves (a literal backslash followed by an escape letter)
@@ -116,7 +121,7 @@ func gen(t *rapid.T) Case {
 	if c.LogName == "." || c.LogName == ".." || len(c.LogName) > 100 {
 		c.LogName = "user_a"
 	}
-	c.Validity = rapid.SampledFrom([]uint64{1, 2, 59, 3599, 3600, 43200, 86400, 1 << 31, 315360000, 0}).Draw(t, "validity")
+	c.Validity = rapid.SampledFrom([]uint64{1, 2, 59, 3599, 3600, 43200, 86400, 1 << 31, 315360000, 0, 1<<32 - 1, 1 << 32, 1<<32 + 600, 9999999999, 1 << 40, 1 << 53}).Draw(t, "validity")
 	if c.Validity == 0 {
 		c.Validity = rapid.Uint64Range(1, 315360000).Draw(t, "validityAny")
 	}
@@ -317,7 +322,7 @@ func exec(c Case) (vh.Outcome, error) {
 	return out, nil
 }
 
-const rule = "login name, client-declared user and host, transaction id with JSON metacharacters (quotes, backslash, an injection attempt, U+2028), non-ASCII, spaces; IPv4/IPv6 source; requested CA key algorithm 0..5, 7, 100; further client claims in the message (declared OpenSSH version incl. those older than ECDSA / Ed25519 support, touch-to-SSH, touchless-sudo with firefighter / hosts / time, signature algorithm, extension map with attribute look-alikes) that must not reach the request; the registered key in '<login>.pub' or bare '<login>' - or only under near-miss file names (other letter case, doubled '.pub'), in which case nothing may be requested -, its line with or without authorized_keys options (restrict, no-pty, from=, command=, ...); handler configuration written as JSON and loaded by config.NewGensignConfig: validity 1 s..10 y (edges 1, 3599, 3600, 2^31, 315360000) or omitted (default 12 h), key_identifiers keyed by algorithm name in random case, by default/unknown, or by number, with or without the requested algorithm; parameters built directly or through NewReqParam; honest agent, recording CA; each Case issues the request twice. Oracle on the request seen by the CA: principals = [login name]; validity = configured; extensions = the five documented names with empty values; key slot = the one configured for the requested algorithm (reference resolution of names / numbers), none => HandlerConfErr and no CA call; public key parses, is not the registered key, differs between the two requests and equals the public half of the private key the agent received; KeyId decoded by the reference decoder and by keyid.Unmarshal: single principal = login name, transaction id / ip / declared user / host verbatim, version 1, all flags false, usage 0, never-touch. Non-trivial: declared user != login name, a metacharacter or non-ASCII value, or a non-default algorithm."
+const rule = "login name, client-declared user and host, transaction id with JSON metacharacters (quotes, backslash, an injection attempt, U+2028), non-ASCII, spaces, and long values of 61..5000 bytes around 64 / 128 / 256 / 4096; IPv4/IPv6 source; requested CA key algorithm 0..5, 7, 100; further client claims in the message (declared OpenSSH version incl. those older than ECDSA / Ed25519 support, touch-to-SSH, touchless-sudo with firefighter / hosts / time, signature algorithm, extension map with attribute look-alikes) that must not reach the request; the registered key in '<login>.pub' or bare '<login>' - or only under near-miss file names (other letter case, doubled '.pub'), in which case nothing may be requested -, its line with or without authorized_keys options (restrict, no-pty, from=, command=, ...); handler configuration written as JSON and loaded by config.NewGensignConfig: validity 1 s..10 y (edges 1, 3599, 3600, 2^31, 315360000) and beyond 32 bits (2^32-1, 2^32, 2^32+600, 9999999999, 2^40, 2^53: the option is a 64-bit number) or omitted (default 12 h), key_identifiers keyed by algorithm name in random case, by default/unknown, or by number, with or without the requested algorithm; parameters built directly or through NewReqParam; honest agent, recording CA; each Case issues the request twice. Oracle on the request seen by the CA: principals = [login name]; validity = configured; extensions = the five documented names with empty values; key slot = the one configured for the requested algorithm (reference resolution of names / numbers), none => HandlerConfErr and no CA call; public key parses, is not the registered key, differs between the two requests and equals the public half of the private key the agent received; KeyId decoded by the reference decoder and by keyid.Unmarshal: single principal = login name, transaction id / ip / declared user / host verbatim, version 1, all flags false, usage 0, never-touch. Non-trivial: declared user != login name, a metacharacter or non-ASCII value, or a non-default algorithm."
 
 func TestC02Request(t *testing.T) {
 	vh.Run(t, vh.Spec[Case]{Property: "C02", Name: "TestC02Request", Rule: rule, Gen: gen, Exec: exec})
